@@ -24,7 +24,7 @@ Inductive op :=
 | OpSend (now dp pf ps prio sa : Z) (data : pl)
 | OpNotify (now id : Z) (data : list Z)
 | OpListener (now id : Z) (ext remote err : bool) (data : list Z)
-| OpJob (now : Z)
+| OpJob (now elapsed : Z)      (* elapsed: time the iteration itself took (slow application callbacks); 0 under A2 *)
 | OpCaSend (i : nat) (now dp pf ps prio : Z) (data : pl)
 | OpCaSendMsg (i : nat) (prio pgn : Z) (data : pl)
 | OpCaRequest (i : nat) (now dp pgn dest : Z)
@@ -49,10 +49,10 @@ Definition handler (o : op) (n : node) : act node :=
   | OpSend now dp pf ps prio sa d => send_pgn n now dp pf ps prio sa (pl_bytes d)
   | OpNotify now id d => notify n now id d
   | OpListener now id e r er d => listener n now id e r er d
-  | OpJob now => match job_iter n now with
+  | OpJob now el => match job_iter n now with
                  | a => (fix clamp (a : act node) : act node :=
                            match a with
-                           | Done s r => Done s (Z.max r 0)
+                           | Done s r => Done s (Z.max (r - el) 0)
                            | Raise s e => Raise s e
                            | Emit s o k => Emit s o (fun s' => clamp (k s'))
                            end) a
